@@ -4,6 +4,7 @@ import (
 	"fmt"
 	"sort"
 	"strings"
+	"time"
 
 	gmint "github.com/elnosh/gonuts/mint"
 )
@@ -43,6 +44,14 @@ func coreC07(tier string) []RunSpec {
 					out = append(out, RunSpec{Profile: "core:" + op, Params: map[string]int{"op": oi, "fault": fault, "k": k, "final": f}})
 				}
 			}
+		}
+	}
+	// the invoice of a mint quote is paid while the mint cannot notice (down, or its invoice
+	// subscription lost with a crash); the mint comes back - at once or long after the quote's
+	// expiry - and the client who paid in time asks for its tokens
+	for d := 0; d < 4; d++ {
+		for when := 0; when < 2; when++ {
+			out = append(out, RunSpec{Profile: "core:paid-while-down", Params: map[string]int{"pwd": 1, "d": d, "when": when}})
 		}
 	}
 	return out
@@ -125,6 +134,13 @@ func runC07(rc *RunCtx) {
 			m.Step(T.Pick("prior.kind", 2, 3, 2, 1, 1, 0, 1, 1, 1, 1), false)
 		}
 		m.step = 100
+	}
+	if rc.P("pwd", 0) == 1 || (random && T.Chance("pwd", 1, 10)) {
+		c07PaidWhileDown(rc, m, rc.P("d", T.Choose("pwd.d", 4)), rc.P("when", T.Choose("pwd.when", 2)))
+		if !random {
+			m.Finale()
+			return
+		}
 	}
 	round := 0
 	faulted := func(oi, faultKind, k, final int) {
@@ -551,4 +567,51 @@ func runC07(rc *RunCtx) {
 	}
 	W.Book.FinalizeMelts()
 	m.Audit("A")
+}
+
+// c07PaidWhileDown: see coreC07. when 0: paid before the crash (the notification never reached the
+// mint), when 1: paid after the restart (LoadMint does not re-subscribe). d: how long after the
+// payment the client comes back.
+func c07PaidWhileDown(rc *RunCtx, m *MW, d, when int) {
+	W := rc.W
+	wait := []time.Duration{0, 20 * time.Minute, 2 * time.Hour, 26 * time.Hour}[d%4]
+	rc.Op(fmt.Sprintf("paid-while-down when=%d wait=%s", when, wait))
+	var q *MintQuote
+	rc.Quietly(func() { q, _ = m.User.ReqMintQuote("A", 64, false) })
+	if q == nil {
+		return
+	}
+	if when == 0 {
+		W.LN.PayExternal(q.Hash) // settled on Lightning, notification not delivered
+	}
+	crashed := false
+	rc.Quietly(func() {
+		if err := W.RestartMint("A", nil); err != nil {
+			W.Book.Violate("C07.S.load_fails", "paid-while-down", "mint does not load: %v", err)
+			crashed = true
+		}
+	})
+	if crashed {
+		return
+	}
+	if when == 1 {
+		W.LN.PayExternal(q.Hash)
+	}
+	if wait > 0 {
+		rc.S.Sleep(wait)
+	}
+	ks := W.ActiveKeyset("A")
+	var state string
+	var mr *Resp
+	rc.S.BeginEpisode()
+	rc.S.Run1("pwd.claim", W.Ext, func() {
+		state = RespState(m.User.PollMintQuote("A", q.ID))
+		_, mr = m.User.Mint("A", q, W.NewOutputs(Split(64), ks.ID), "")
+	})
+	rc.S.Probe("c07_paid_while_down")
+	rc.Nontrivial = true
+	if mr == nil || !mr.OK() {
+		fp := fmt.Sprintf("paid-while-down|when=%d|late=%v|mint_stranded", when, wait > 15*time.Minute)
+		W.Book.Violate("C07.A.mint_stranded", fp, "invoice of quote %s was paid in time (%s) but %s later the quote is %s and the mint request is answered %v: paid, nothing recoverable", short(q.ID), []string{"before the mint went down", "after the restart"}[when%2], wait, state, mr)
+	}
 }
